@@ -172,6 +172,7 @@ fn glue_body() {
 #[kani::proof]
 #[kani::unwind(21)]
 #[kani::stub(crate::arch::x86_64::avx2::packedpair::Finder::is_available, avail_false)]
+#[kani::stub(crate::arch::x86_64::avx2::memchr::One::is_available, avail_false)]
 fn bounded_glue_sse2_n2_h19() {
     glue_body();
 }
@@ -179,14 +180,41 @@ fn bounded_glue_sse2_n2_h19() {
 #[kani::unwind(21)]
 #[kani::stub(crate::arch::x86_64::avx2::packedpair::Finder::is_available, avail_false)]
 #[kani::stub(crate::arch::x86_64::sse2::packedpair::Finder::is_available, avail_false)]
+#[kani::stub(crate::arch::x86_64::avx2::memchr::One::is_available, avail_false)]
 fn bounded_glue_fallback_n2_h19() {
     glue_body();
 }
 #[kani::proof]
 #[kani::unwind(8)]
-#[kani::stub(crate::arch::x86_64::avx2::packedpair::Finder::is_available, avail_false)]
+#[kani::stub(crate::arch::x86_64::avx2::memchr::One::is_available, avail_false)]
 fn bounded_glue_rev_n3_h6() {
     sym_slices!(hb, h, 6, nb, n, 3);
     let f = crate::memmem::FinderRev::new(n);
     assert!(f.rfind(h) == naive_rfind(h, n));
+}
+
+#[kani::proof]
+#[kani::unwind(7)]
+#[kani::stub(crate::arch::x86_64::avx2::packedpair::Finder::is_available, avail_false)]
+#[kani::stub(crate::arch::x86_64::sse2::packedpair::Finder::is_available, avail_false)]
+#[kani::stub(crate::arch::x86_64::avx2::memchr::One::is_available, avail_false)]
+fn bounded_glue_small_n2_h5() {
+    sym_slices!(hb, h, 5, nb, n, 2);
+    let cfg = if kani::any() { crate::memmem::Prefilter::None } else { crate::memmem::Prefilter::Auto };
+    let f = crate::memmem::FinderBuilder::new().prefilter(cfg).build_forward(n);
+    assert!(f.find(h) == naive_find(h, n));
+}
+#[kani::proof]
+#[kani::unwind(8)]
+fn bounded_twoway_fwd_n3_h6() {
+    sym_slices!(hb, h, 6, nb, n, 3);
+    let f = crate::arch::all::twoway::Finder::new(n);
+    assert!(f.find(h, n) == naive_find(h, n));
+}
+#[kani::proof]
+#[kani::unwind(8)]
+fn bounded_twoway_rev_n3_h6() {
+    sym_slices!(hb, h, 6, nb, n, 3);
+    let f = crate::arch::all::twoway::FinderRev::new(n);
+    assert!(f.rfind(h, n) == naive_rfind(h, n));
 }
